@@ -237,6 +237,45 @@ func (tr *c14Transport) RoundTrip(creq *http.Request) (*http.Response, error) {
 			t.Header.Del("Content-Type")
 		case "wrong-content-type":
 			t.Header.Set("Content-Type", "application/octet-stream")
+		case "ms-ill-formed":
+			// a damaged byte or a sloppy generator: no longer XML, although a
+			// lenient (non-strict, HTML) reader would make something of it
+			if t.Status == 207 && len(t.Body) > 0 {
+				b := string(t.Body)
+				switch f.Sel % 4 {
+				case 0:
+					if i := strings.Index(b, "</"); i >= 0 {
+						j := i
+						for k := 0; k < f.At; k++ { // the At-th end tag, if there are that many
+							if n := strings.Index(b[j+2:], "</"); n >= 0 {
+								j += 2 + n
+							}
+						}
+						b = b[:j] + "<" + b[j+2:]
+						t.Rewritten = "an end tag turned into a start tag"
+					}
+				case 1:
+					if i := strings.Index(b, "</"); i > 0 {
+						b = b[:i] + "&nbsp;" + b[i:]
+						t.Rewritten = "an undeclared entity"
+					}
+				case 2:
+					if i := strings.LastIndex(b, "</"); i > 0 {
+						if j := strings.Index(b[i:], ">"); j > 3 {
+							b = b[:i+j-1] + "X" + b[i+j-1:]
+							t.Rewritten = "mismatched name in the last end tag"
+						}
+					}
+				default:
+					if i := strings.Index(b, "?>"); i > 0 {
+						b = b[:i+2] + "<multistatus xmlns=DAV: >" + b[i+2:]
+						t.Rewritten = "an unquoted attribute value"
+					}
+				}
+				if t.Rewritten != "" {
+					t.Body = []byte(b)
+				}
+			}
 		case "ms-neutral":
 			if t.Status == 207 {
 				if nb, what := neutralRewrite(t.Body, f.Sel); what != "" {
@@ -984,6 +1023,16 @@ func (ex *executor) callStep(idx int, st *Step) {
 		}
 		return
 	}
+	// (5a) a 207 body that is not XML cannot be interpreted
+	if last.Faulted == "ms-ill-formed" && last.Rewritten != "" && multistatusCalls[c.Fn] {
+		if _, perr := model.ParseXML(last.Body); perr != nil {
+			ex.res.Stats.NT("C14|" + class + " ill-formed " + last.Rewritten)
+			if res.Err == nil {
+				bad("value-from-cut-body", fmt.Sprintf("the multi-status body is not well-formed XML (%s: %v), yet the call returned no error", last.Rewritten, perr))
+			}
+			return
+		}
+	}
 	// (5) failing resources / properties inside a multi-status
 	if last.Status == 207 && multistatusCalls[c.Fn] {
 		ms, err := model.ParseMultiStatus(last.Body)
@@ -1014,6 +1063,18 @@ func (ex *executor) callStep(idx int, st *Step) {
 					for fld, code := range failedProp[it.Path] {
 						if it.Fields[fld] || (fld == "data" && it.HasData) {
 							bad("failed-resource-as-data", fmt.Sprintf("%s: property (%s) is reported under status %d, yet the call returned a value for it", it.Path, fld, code))
+						}
+					}
+				}
+				// a property the call reads, reported with a failure other than
+				// "not there" (404), is a failure of the call
+				for path, flds := range failedProp {
+					if c.Fn == "SyncCollection" && strings.TrimSuffix(path, "/") == strings.TrimSuffix(model.ParseHref(endpoint).Path+strings.TrimPrefix(c.Path, "/"), "/") || c.Fn == "SyncCollection" && strings.HasSuffix(strings.TrimSuffix(path, "/"), strings.TrimSuffix(c.Path, "/")) {
+						continue // the collection's own entry: the call reads none of its properties
+					}
+					for fld, code := range flds {
+						if code != 404 && code/100 != 2 && code/100 != 1 && code/100 != 3 {
+							bad("missing-error", fmt.Sprintf("%s: property (%s) is reported under status %d inside the multi-status, but the call returned no error", path, fld, code))
 						}
 					}
 				}
